@@ -27,6 +27,8 @@ func init() {
 		Assumptions: []string{"text/template semantics; the template model mirrors cmd/protoc-gen-router/main.go newServiceModel and cmd/protoc-gen-wrapper/main.go", "grpc ClientStream/ServerStream contracts"},
 		Run:         runC12,
 		Controls: []Control{
+			{Name: "generator-skips-empty-services", File: "cmd/protoc-gen-router/main.go", Old: "\tfor _, service := range file.Services {\n", New: "\tfor _, service := range file.Services {\n\t\tif len(service.Methods) == 0 {\n\t\t\tcontinue\n\t\t}\n", Expect: "R12.6"},
+			{Name: "get-returns-fallback-error-with-factory-client", File: "pkg/router/router.go", Old: "\t\tchild, exists, err = invoke(name, r.factory)\n", New: "\t\tchild, exists, _ = invoke(name, r.factory)\n", Expect: "R12.4"},
 			{Name: "add-skips-unchanged-client", File: "pkg/router/router.go", Old: "\tr.registry[name] = client\n\tr.mu.Unlock()\n", New: "\tr.registry[name] = client\n\tr.mu.Unlock()\n\n\tif old == client {\n\t\treturn old\n\t}\n", Expect: "R12.4"},
 			{Name: "router-method-other-rpc", File: "pkg/trait/onoffpb/api_router.pb.go", Old: "\treturn child.GetOnOff(ctx, request)", New: "\treturn child.GetOnOff(context.Background(), request)", Expect: "R12.1"},
 			{Name: "router-constant-name", File: "pkg/trait/lightpb/api_router.pb.go", Old: "func (r *ApiRouter) UpdateBrightness(ctx context.Context, request *traits.UpdateBrightnessRequest) (*traits.Brightness, error) {\n\tchild, err := r.GetLightApiClient(request.Name)", New: "func (r *ApiRouter) UpdateBrightness(ctx context.Context, request *traits.UpdateBrightnessRequest) (*traits.Brightness, error) {\n\tchild, err := r.GetLightApiClient(\"\")", Expect: "R12.1"},
@@ -282,6 +284,8 @@ func runC12(c *an.Ctx) {
 	r123(c)
 	r124(c)
 	r125(c)
+	r126(c)
+	c.Min("R12.6", 2)
 	c.Min("R12.1", 130)
 	c.Min("R12.2", 130)
 	c.Min("R12.3", 150)
@@ -958,13 +962,18 @@ func r124(c *an.Ctx) {
 			usedFactory := strings.Contains(calls, "invoke(name, r.factory)")
 			stored := strings.Contains(calls, "mapupdate r.registry[name]=")
 			cb := strings.Count(calls, "r.onChange(")
+			// the error that goes with a client that was found: nil, or the error result of the very lookup that found
+			// it (nil there by invoke's definition) - not one left over from a lookup that failed
+			errOf := func(which string) bool {
+				return l.Returns[1].K == "nil" || l.Returns[1].S == "call pkg/router.invoke(name, r."+which+")#2"
+			}
 			switch {
 			case l.Get(reg) == "true":
 				rec("registered: returned, nothing else touched", l.Returns[0].S == "r.registry[name]#0" && l.Returns[1].K == "nil" && !usedFallback && !usedFactory && !stored && cb == 0, "registered client: returns ("+l.Returns[0].S+", "+l.Returns[1].S+"), calls "+calls)
 			case l.Get(fb) == "true":
-				rec("fallback before factory, not remembered", strings.Contains(l.Returns[0].S, "r.fallback)#0") && !usedFactory && !stored && cb == 0, "fallback hit: returns "+l.Returns[0].S+", calls "+calls)
+				rec("fallback before factory, not remembered", strings.Contains(l.Returns[0].S, "r.fallback)#0") && errOf("fallback") && !usedFactory && !stored && cb == 0, "fallback hit: returns ("+l.Returns[0].S+", "+l.Returns[1].S+"), calls "+calls)
 			case l.Get(fac) == "true" && l.Get(reg2) == "true":
-				rec("factory product discarded when a concurrent Get committed first", l.Returns[0].S == "@2 r.registry[name]#0" && !stored && cb == 0 && usedFallback, "lost race: returns "+l.Returns[0].S+", stored="+fmt.Sprint(stored))
+				rec("factory product discarded when a concurrent Get committed first", l.Returns[0].S == "@2 r.registry[name]#0" && errOf("factory") && !stored && cb == 0 && usedFallback, "lost race: returns ("+l.Returns[0].S+", "+l.Returns[1].S+"), stored="+fmt.Sprint(stored))
 			case l.Get(fac) == "true" && l.Get(reg2) == "false":
 				okAuto := true
 				for _, r := range l.Recs {
@@ -989,8 +998,8 @@ func r124(c *an.Ctx) {
 						unlockIdx = i
 					}
 				}
-				rec("factory product committed once under the exclusive lock, reported as Auto", stored && lockIdx >= 0 && lockIdx < storeIdx && storeIdx < unlockIdx && cb == wantCb && okAuto && strings.Contains(l.Returns[0].S, "r.factory)#0") && usedFallback,
-					fmt.Sprintf("factory hit: stored=%v lock/store/unlock=%d/%d/%d callbacks=%d autoChange=%v returns %s", stored, lockIdx, storeIdx, unlockIdx, cb, okAuto, l.Returns[0].S))
+				rec("factory product committed once under the exclusive lock, reported as Auto", stored && lockIdx >= 0 && lockIdx < storeIdx && storeIdx < unlockIdx && cb == wantCb && okAuto && strings.Contains(l.Returns[0].S, "r.factory)#0") && errOf("factory") && usedFallback,
+					fmt.Sprintf("factory hit: stored=%v lock/store/unlock=%d/%d/%d callbacks=%d autoChange=%v returns (%s, %s) - a client that was created must not come with the error of the fallback that failed before it", stored, lockIdx, storeIdx, unlockIdx, cb, okAuto, l.Returns[0].S, l.Returns[1].S))
 			case l.Get(fac) == "false":
 				rec("miss: NotFound, nothing stored", l.Returns[0].K == "nil" && strings.Contains(l.Returns[1].S, fmt.Sprintf("status.Error(%d,", an.CodeNotFound)) && !stored && cb == 0 && usedFallback && usedFactory, "miss returns ("+l.Returns[0].S+", "+l.Returns[1].S+")")
 			default:
@@ -1210,4 +1219,54 @@ func RenderRouter(p *an.Program, pkgRel, svcName string) string {
 		}
 	}
 	return "service not found"
+}
+
+// r126: the generators render a file for EVERY service of a proto file: no iteration of the loop over file.Services
+// reaches the next one without executing the service template (a failing Execute ends the run with its error).
+// The checked-in routers and wrappers include services without methods (the *Info services), so "nothing to route"
+// is not a reason to skip.
+func r126(c *an.Ctx) {
+	const rule = "R12.6"
+	for _, rel := range []string{"cmd/protoc-gen-router", "cmd/protoc-gen-wrapper"} {
+		fn := c.Prog.Func(rel, "", "generateFile")
+		if fn == nil {
+			c.Unk(rule, rel+".generateFile|every service is rendered", 0, "generateFile not found")
+			continue
+		}
+		name := rel + ".generateFile"
+		c.SawFunc(an.FuncName(fn))
+		isExecute := func(in ssa.Instruction) bool { return an.IsCallTo(in, "(*text/template.Template).Execute") }
+		n := 0
+		for _, b := range fn.Blocks {
+			iff, ok := b.Instrs[len(b.Instrs)-1].(*ssa.If)
+			if !ok {
+				continue
+			}
+			bo, ok := iff.Cond.(*ssa.BinOp)
+			if !ok || bo.Op != token.LSS {
+				continue
+			}
+			// i < len(file.Services)
+			overServices := false
+			for _, s0 := range an.Sources(bo.Y) {
+				if cl, isCall := s0.(*ssa.Call); isCall && an.CalleeName(cl) == "builtin len" {
+					for _, s1 := range an.Sources(cl.Call.Args[0]) {
+						if _, _, f, isF := an.FieldOf(s1); isF && f == "Services" {
+							overServices = true
+						}
+					}
+				}
+			}
+			if !overServices {
+				continue
+			}
+			n++
+			t, path := an.PathQuery{Target: func(x ssa.Instruction) bool { return x == ssa.Instruction(iff) }, Avoid: isExecute}.FromBlock(b.Succs[0])
+			c.Check(t == nil, rule, name+"|every service is rendered", iff.Pos(), "each iteration executes the service template",
+				"an iteration over file.Services can move on to the next service without executing the service template: services are skipped (e.g. those without methods), so the checked-in file of such a service is no longer what the generator produces and a later regeneration drops its router/wrapper", an.BlockPath(c.Prog, path)...)
+		}
+		if n == 0 {
+			c.Unk(rule, name+"|every service is rendered", fn.Pos(), "no loop over file.Services found")
+		}
+	}
 }
